@@ -1144,6 +1144,9 @@ def _sum_piece(wavelength, compound):
     molar_mass = num_atoms = 0
     b_c = sigma_s = 0
     for element, quantity in compound.atoms.items():
+        # Same test as neutron_scattering: sld is unknown for this material.
+        if not element.neutron.has_sld():
+            return None
         molar_mass += element.mass*quantity
         num_atoms += quantity
         b_ck, sigma_sk = element.neutron.scattering_by_wavelength(wavelength)
@@ -1189,6 +1192,10 @@ def neutron_composite_sld(materials, wavelength=ABSORPTION_WAVELENGTH):
         wavelength = np.asarray(wavelength)
     # Query all parts of the composition
     parts = [_sum_piece(wavelength, m) for m in materials]
+    if any(p is None for p in parts):
+        # Returns (None, None, None) if sld is unknown for any component,
+        # like neutron_sld on the mixture does.
+        return lambda weights, density=1: (None, None, None)
     num_atoms_parts, molar_mass_parts, bc_parts, sigma_parts = [
         np.array(v) for v in zip(*parts)
     ]
